@@ -100,6 +100,12 @@ def infVars : List Rat → List Bnd → Option Rat
     | _, _ => none
   | _, _ => none
 
+/-- a box with `lo > hi` contains nothing -/
+def Bnd.empty (b : Bnd) : Bool :=
+  match b.lo, b.hi with
+  | some l, some u => decide (u < l)
+  | _, _ => false
+
 def rowsHaveLen (n : Nat) : List (List Rat × Bnd) → Bool
   | [] => true
   | (a, _) :: rs => (a.length == n) && rowsHaveLen n rs
@@ -107,10 +113,11 @@ def rowsHaveLen (n : Nat) : List (List Rat × Bnd) → Bool
 /-- Farkas certificate of infeasibility: with `g = yᵀA`, every point of the box has `g·x ≥ L` while the row
 bounds force `g·x ≤ R`, and `R < L` -/
 def LP.checkInfeas (p : LP) (y : List Rat) : Bool :=
-  rowsHaveLen p.n p.rows && (p.vb.length == p.n) &&
+  p.vb.any Bnd.empty ||
+  (rowsHaveLen p.n p.rows && (p.vb.length == p.n) &&
   match supRows y p.rows, infVars (yA p.n y p.rows) p.vb with
   | some r, some l => decide (r < l)
-  | _, _ => false
+  | _, _ => false)
 
 /-- `z` is a recession direction of the box `b` -/
 def rayOK (b : Bnd) (z : Rat) : Bool :=
